@@ -242,3 +242,8 @@ def run(ctx):
             except Exception as e:  # noqa
                 ctx.violation("C08/PlanningProblem.goal_reached/raises-%s/%s" % (type(e).__name__, cls), repr(e)[:300],
                               {"goal": gfp})
+
+    # ambient workload (thorough tier): the repository's own tests with the contracts installed
+    if not ctx.quick and ctx.shard == 0 and ctx.only is None:
+        from vf.ambient import run_ambient
+        run_ambient(ctx, ['goal'])
